@@ -380,6 +380,8 @@ class StereoMolGraph(MolGraph):
         :return: Returns MolGraph
         """
 
+        # the graphs are iterated more than once
+        mol_graphs = tuple(mol_graphs)
         graph = cls(super().compose(mol_graphs))
         for mol_graph in mol_graphs:
             graph._atom_stereo.update(cls(mol_graph)._atom_stereo)
